@@ -274,6 +274,14 @@ def c03_layouts(tier, seed):
                 if K >= 2:
                     for ty in (T_uint(w), T_int(w)):
                         Ls.append(mk(W, (lo, w, w, K), ty, tag=f"dense [{ty.decl_ty()}; {K}] starting at unaligned bit {lo} of u{W}"))
+    # two arrays in one struct: explicit stride first, then one relying on the default stride (and vice versa)
+    for W in (32, 64, 24, 128):
+        a = Field("a", T_uint(2), [(0, 2)], (3, 5, True), "rw")
+        b = Field("b", T_uint(4), [(16, 4)], (2, 4, False), "rw")
+        c = Field("c", T_bool(), [(W - 3, 1)], (3, 1, False), "rw")
+        import copy
+        Ls.append(Layout(W, [copy.deepcopy(a), copy.deepcopy(b), copy.deepcopy(c)], tag=f"strided array, then dense arrays without stride on u{W}"))
+        Ls.append(Layout(W, [copy.deepcopy(c), copy.deepcopy(b), copy.deepcopy(a)], tag=f"dense arrays first, strided array last on u{W}"))
     # the same attribute written with its arguments in other orders
     for order in ("sra", "asr", "rsa", "ars", "sar"):
         for (W, shape, ty) in ((32, (0, 4, 8, 4), T_uint(4)), (16, (1, 1, 3, 5), T_bool()), (64, (4, 8, 16, 3), T_int(8)), (24, (2, 3, 5, 4), T_uint(3))):
@@ -402,7 +410,7 @@ def c04_permutation_layouts(tier):
 
 
 def plan_c04(tier, seed):
-    Ls = c04_layouts(tier, seed) + c04_straddle_layouts() + c04_permutation_layouts(tier)
+    Ls = c04_layouts(tier, seed) + c04_straddle_layouts() + c04_permutation_layouts(tier) + bit_keyword_list_layouts()
     # the second-write harness on every structured layout and on every other random one (quick)
     def hs(L, k=[0]):
         k[0] += 1
@@ -516,13 +524,22 @@ def c06_layouts(tier, seed):
             (("const", pats[1]), False, [], "named constant, struct without fields"),
             (("lit", pats[3], "dec"), True, [lowf], "decimal literal top bit only, legacy `:` syntax"),
         ]
+        forms += [(("lit", pats[1] | 1, "hex"), "debug_after", [], "literal default followed by `debug`"),
+                  (("const", pats[0]), "debug_before", [], "`debug` written before a named-constant default"),
+                  (("lit", pats[2], "dec"), "trailing_comma", [lowf], "literal default with a trailing comma")]
         if tier != "quick":
             forms += [(("lit", pats[2], "dec"), False, [], "literal 1, no fields"),
                       (("const", pats[0]), True, [lowf], "named constant all ones, legacy syntax"),
                       (None, False, [], "no default, no fields")]
         for (d, legacy, fs, tag) in forms:
             import copy
-            L = Layout(N, copy.deepcopy(fs), default=d, legacy=legacy, tag=f"u{N}: {tag}")
+            L = Layout(N, copy.deepcopy(fs), default=d, legacy=(legacy is True), tag=f"u{N}: {tag}")
+            if legacy == "debug_after":
+                L.debug = True
+            elif legacy == "debug_before":
+                L.debug, L.debug_first = True, True
+            elif legacy == "trailing_comma":
+                L.trailing_comma = True
             if d and d[0] == "const":
                 # names a generated item might also want to use for itself
                 L.const_name = ["MAX", "DEF_CONST", "MASK", "ZERO", "DEFAULT", "BITS", "MIN", "DEFAULT_RAW_VALUE", "RESET"][len(Ls) % 9]
@@ -668,6 +685,10 @@ def enum_corpus(tier, seed):
                 pool = range(top + 1) if bits <= 20 else None
                 ds = sorted(rnd.sample(pool, min(k, top + 1))) if pool else sorted(set(rnd.getrandbits(bits) for _ in range(k)))
                 add(bits, ds)
+    # explicit #[repr] narrower than (or different from) the storage integer
+    for (bits, ds, rp) in ((10, [1, 0x80, 0xff], "u8"), (12, [0, 200], "u8"), (20, [3, 0x8000, 0xffff], "u16"), (33, [0, 0xffff_ffff], "u32"), (9, [0, 1, 2, 255], "u16"), (3, [0, 7], "u64")):
+        add(bits, ds, tag=f"u{bits} storage with #[repr({rp})]")
+        Es[-1].repr = rp
     # conditional enums: cfg-gated variants, active set known; may list more than 2^N variants
     add(2, [0, 1, 2, 3], exhaustive="conditional", cfg=[None, "on", None, "on"], tag="conditional, all active")
     add(2, [0, 1, 2, 3], exhaustive="conditional", cfg=[None, "off", None, "on"], tag="conditional, one inactive")
@@ -803,6 +824,19 @@ def c08_extra_layouts(tier):
     import copy
     Ls = []
     rnd = random.Random(88)
+    for (W, bits, ds, rp) in ((32, 10, [1, 0x80, 0xff], "u8"), (128, 10, [1, 0x80, 0xff], "u8"), (64, 20, [3, 0x8000, 0xffff], "u16"), (24, 12, [0, 200], "u8")):
+        for placement in ("plain", "array", "top"):
+            e = sparse_enum("ER", bits, ds, None)
+            e.repr = rp
+            if placement == "plain":
+                f = Field("f", FType("optenum", bits, e), [(1, bits)], None, "rw")
+            elif placement == "top":
+                f = Field("f", FType("optenum", bits, e), [(W - bits, bits)], None, "rw")
+            else:
+                if 2 * (bits + 2) > W:
+                    continue
+                f = Field("f", FType("optenum", bits, e), [(0, bits)], (2, bits + 2, True), "rw")
+            Ls.append(Layout(W, [f], aux=[e], tag=f"Option<enum> with #[repr({rp})] over u{bits} storage, {placement}, on u{W}"))
     for W in (8, 16, 32, 64, 128, 24):
         h = W // 2
         lists = [[(h, W - h), (0, h)]]
@@ -990,6 +1024,13 @@ def h_untouched(L, f):
     return Harness(f"untouched_{f.name}", "\n".join(b), "pass", "untouched_bits", "C12", f.name, ())
 
 
+def bit_keyword_list_layouts():
+    Ls = []
+    for W in (8, 32, 24, 128):
+        Ls.append(Layout(W, [Field("x", T_uint(2), [(0, 1), (4, 1)], None, "rw", form="bit_list"), Field("y", T_uint(4), [(W - 4, 4)], None, "rw", form="bit_list"), Field("z", T_uint(2), [(1, 1), (3, 1)], (2, 4, True), "rw", form="bit_list")], tag=f"multi-bit fields whose lists are spelled under `bit` on u{W}"))
+    return Ls
+
+
 def c12_selfoverlap_layouts():
     Ls = []
     for W in (16, 32, 24, 128):
@@ -1000,7 +1041,7 @@ def c12_selfoverlap_layouts():
 
 
 def c12_layouts(tier, seed):
-    Ls = c12_directed_layouts()
+    Ls = c12_directed_layouts() + bit_keyword_list_layouts()
     # several range-list fields in one struct (arrays and non-arrays mixed)
     for W in (32, 64, 24, 128):
         fs = [Field("imm", T_uint(6), [(7, 2), (W - 4, 4)], None, "rw"), Field("funct", T_uint(3), [(12, 1), (14, 2)], None, "rw"),
@@ -1134,6 +1175,12 @@ def c13_layouts(tier, seed):
     # dense native-integer arrays that do not start at bit 0, in a storage wider than the packed array
     for (W, ety, lo, K) in ((64, T_uint(8), 8, 4), (64, T_int(16), 16, 2), (128, T_uint(32), 32, 3), (32, T_uint(8), 8, 2), (128, T_int(8), 40, 8), (128, T_uint(64), 64, 1 + 0) if False else (128, T_uint(16), 72, 3), (48, T_uint(8), 16, 4), (100, T_int(32), 20, 2)):
         Ls.append(Layout(W, [Field("lo", ty_for_width(lo, "u1"), [(0, lo)], None, "rw"), Field("a", ety, [(lo, ety.width)], (K, ety.width, False), "rw")], default=("lit", mask(W) ^ (1 << (W - 1)), "hex"), tag=f"dense [{ety.decl_ty()}; {K}] starting at bit {lo} of u{W}"))
+    # arrays with more than 16 elements
+    Ls.append(Layout(32, [Field("a", T_bool(), [(0, 1)], (32, 1, False), "rw")], tag="[bool; 32] fills u32"))
+    Ls.append(Layout(64, [Field("a", T_uint(2), [(4, 2)], (20, 3, True), "rw")], default=("lit", mask(64), "hex"), tag="[u2; 20] stride 3 on u64 with default all ones"))
+    Ls.append(Layout(128, [Field("a", T_uint(4), [(0, 4)], (24, 5, True), "rw"), Field("t", T_bool(), [(127, 1)], None, "rw")], default=("lit", 1 << 126, "hex"), tag="[u4; 24] stride 5 on u128"))
+    Ls.append(Layout(128, [Field("lo", T_uint(40), [(0, 40)], None, "rw"), Field("a", T_uint(16), [(40, 16)], (4, 16, False), "rw")], default=("lit", mask(128), "hex"), tag="[u16; 4] starting at bit 40 of u128 (an element straddles bit 64)"))
+    Ls.append(Layout(128, [Field("a", T_int(8), [(12, 8)], (5, 24, True), "rw")], default=("lit", 1 << 127, "hex"), tag="[i8; 5] stride 24 from bit 12 of u128 (an element straddles bit 64)"))
     # strided arrays with gap bits: K * stride == base width, other fields / default bits live in the gaps
     for W in NATIVE_BASES + [24, 48, 100]:
         for w in (1, 4, 8):
@@ -1440,6 +1487,8 @@ def plan_c16(tier, seed):
         h = H.h_total(L, L.fields[0], "C16")
         h.role = "self-overlapping-list-wider-than-storage"
         us.append(Unit(f"w{k:05d}", L.decl(), [h], {"layout": L, "sig": L.sig(), "tag": L.tag, "valid": True, "role": "self-overlapping-list-wider-than-storage"}))
+    for k, L in enumerate(c12_selfoverlap_layouts()):
+        us.append(Unit(f"v{k:05d}", L.decl(), [H.h_total(L, f, "C16") for f in L.fields], {"layout": L, "sig": L.sig(), "tag": L.tag, "valid": True}))
     # controls: an out-of-range index admitted, and a deliberately overflowing harness expression
     done = 0
     for u in us:
@@ -1563,7 +1612,7 @@ def c09_candidates(tier):
         assert not L.rule_valid(), (tag, L.decl())
         C.append((L, role))
 
-    nat = [8, 16, 32, 64] + ([128] if tier != "quick" else [])
+    nat = [8, 16, 32, 64, 128]
     arbs = [7, 9, 24, 33, 65, 100] if tier == "quick" else [n for n in ALL_ARB if n >= 3][::4] + [24, 127]
     # 1. type width != selected bits
     for W in (8, 32, 128, 24):
@@ -1648,6 +1697,10 @@ def c09_candidates(tier):
         add(W, [Field("f", T_bool(), [(0, 1)], (2, 0, True), "w")], "stride-less-than-width", f"write-only [bool;2] stride 0 on u{W}")
         e = full_enum("E1", 1)
         add(W, [Field("f", FType("enum", 1, e), [(1, 1)], (3, 0, True), "rw")], "stride-less-than-width", f"[1-bit enum;3] stride 0 on u{W}", aux=[e])
+    for W in (8, 32, 24):
+        # an array whose single range is written as a ONE-entry list is still a contiguous array
+        add(W, [Field("f", T_uint(4), [(0, 4)], (2, 2, True), "rw", form="list")], "stride-less-than-width", f"[u4;2] declared as a one-entry list with stride 2 on u{W}")
+        add(W, [Field("f", T_uint(3), [(1, 3)], (2, 1, True), "rw", form="bit_list")], "stride-less-than-width", f"[u3;2] declared as bit([1..=3]) with stride 1 on u{W}")
     # 4. lo > hi
     for W in (8, 32, 64, 24):
         L = Layout(W, [Field("f", T_uint(6), [(3, 0)], None, "rw", raw_attr="#[bits(6..=1, rw)]")], tag=f"reversed range 6..=1 typed u6 on u{W}")
@@ -1716,6 +1769,14 @@ def c09_accept_corpus(tier, seed):
             Ls.append(Layout(W, [Field("f", T_uint(2), [(0, 1), (W - 1, 1)], None, "rw")], tag=f"list touching the top of u{W}"))
             Ls.append(Layout(W, [Field("f", T_uint(2), [(0, 1), (2, 1)], (2, W - 3, True), "rw")], tag=f"array of lists ending at top of u{W}"))
         Ls.append(Layout(W, [Field("f", T_uint(W), [(0, W)], None, "rw")], tag=f"full-width field on u{W}"))
+        if W >= 8:
+            Ls.append(Layout(W, [Field("f", T_uint(4), [(0, 4)], (2, 4, False), "rw", form="list")], tag=f"[u4;2] declared as a one-entry list without stride on u{W}"))
+            Ls.append(Layout(W, [Field("f", T_uint(2), [(1, 1), (5, 1)], None, "rw", form="bit_list"), Field("g", T_uint(3), [(W - 3, 3)], None, "rw", form="bit_list")], tag=f"lists spelled under `bit` on u{W}"))
+            L_ = Layout(W, [Field("ro", T_uint(3), [(1, 3)], None, "r")], default=("lit", 0x2b, "hex"), debug=True, tag=f"default followed by debug, read-only fields only, on u{W}")
+            Ls.append(L_)
+            L_ = Layout(W, [Field("f", T_uint(3), [(1, 3)], None, "rw")], default=("lit", 0x2b, "hex"), tag=f"default with a trailing comma on u{W}")
+            L_.trailing_comma = True
+            Ls.append(L_)
         if W >= 8:
             Ls.append(Layout(W, [Field("f", T_uint(4), [(0, 4)], (2, 4, True), "rw")], tag=f"stride == width on u{W}"))
             Ls.append(Layout(W, [Field("f", T_uint(6), [(1, 6)], None, "r"), Field("g", T_int(8), [(W - 8, 8)], None, "w"), Field("n", T_bool(), [(0, 1)], None, "")], tag=f"access r / w / none on u{W}"))
@@ -1870,8 +1931,13 @@ def plan_c14(tier, seed):
     c13 = c13_layouts("quick", 0)
     extra = [(L, "") for L in (c13[:25] + c13[-8:] if tier == "quick" else c13_layouts("thorough", seed)[:200] + c13[-8:])]
     extra += [(L, "overlapping-random-layout") for L in c12_layouts("quick", 0) if not L.builder_expected()][: (12 if tier == "quick" else 60)]
+    for W in (8, 32, 24, 128):
+        cands.append((Layout(W, [Field("id", T_uint(4), [(0, 4)], None, "r")], default=("lit", 0x5, "hex"), tag=f"default and only a read-only field on u{W}"), ""))
+        cands.append((Layout(W, [], default=("lit", 0x1, "hex"), tag=f"default and no fields at all on u{W}"), ""))
+        cands.append((Layout(W, [Field("id", T_uint(4), [(0, 4)], None, "")], default=("lit", 0x5, "hex"), tag=f"default and a field without access specifier on u{W}"), ""))
+        cands.append((Layout(W, [Field("id", T_uint(4), [(0, 4)], None, "r")], tag=f"no default, only a read-only field on u{W}"), "incomplete-no-default"))
     for i, (L, role) in enumerate(cands + extra):
-        if not L.rule_valid() or not any(f.writable for f in L.fields):
+        if not L.rule_valid():
             continue
         exp = L.builder_expected()
         hs = [h_c14_probe(L, exp), h_c14_sound(L, role or ("eligible" if exp else "not-eligible"))]
@@ -2089,7 +2155,7 @@ def c19_layouts(tier, seed):
         """specs: list of (kind, lo, w)"""
         aux, fields = [], []
         for i, (kind, lo, w) in enumerate(specs):
-            name = ["ready", "b", "rx_count", "d", "rr", "f_long_name", "reserved", "h"][i]
+            name = ["ready", "_b", "rx_count", "d", "rr", "f_long_name", "_reserved_5_7", "h"][i]
             if kind == "bool":
                 ty = T_bool()
             elif kind == "uint":
@@ -2158,6 +2224,12 @@ def c19_ref_module(L):
     for f in L.fields:
         out.append(f"        pub {f.name}: {f.ty.getter_ty()},")
     out += ["    }", "}"]
+    # a trait in scope whose BY-VALUE methods carry the names of the fields: the generated Debug impl must
+    # keep calling the inherent getters
+    out.append("pub trait VSampled: Sized {")
+    for f in L.fields:
+        out.append(f"    fn {f.name}(self) -> &'static str {{ \"VERIF-TRAIT-METHOD\" }}")
+    out += ["}", f"impl VSampled for {L.name} {{}}"]
     return "\n".join(out)
 
 
